@@ -559,6 +559,34 @@ pub fn run_life(case_in: &J, out: &mut Out, ic_build: bool) {
                     }
                 }
             }
+            // alternative sources that must denote the same (C08 explicit forms, C17 permutations)
+            if let Some(alts) = case["alts"].as_array() {
+                for (ai, alt) in alts.iter().enumerate() {
+                    let loaded = match rule_yaml(alt, &[], &[], ic_build) {
+                        Ok(r) => load_text(&r.text),
+                        Err(e) => {
+                            out.ev(json!({"ev":"skip","why":cps(&e)}));
+                            continue;
+                        }
+                    };
+                    let tag = loaded.tag();
+                    let r2 = match loaded {
+                        Loaded::Ok(r) => optimise(&r, sw).ok(),
+                        _ => None,
+                    };
+                    out.ev(json!({"ev":"alt","i":ai,"from":me,"obj":k,"out": if r2.is_some() { "ok" } else if tag == "ok" { "panic" } else { tag }}));
+                    let me2 = k;
+                    k += 1;
+                    if let Some(r2) = r2 {
+                        for (i, d) in docs.iter().enumerate() {
+                            if let Ok(Y::Mapping(m)) = d {
+                                let mm = matches(&r2, m);
+                                out.ev(json!({"ev":"match","obj":me2,"d":i,"repr":"yaml","out":mm}));
+                            }
+                        }
+                    }
+                }
+            }
             if plan["validate"].as_bool().unwrap_or(false) {
                 let (o, kind, msg) = validate(&obj);
                 let named: Vec<usize> = (0..n_ex).filter(|i| msg.contains(&format!("MARK{}Q", i))).collect();
